@@ -51,6 +51,7 @@ def merged():
             for k in ("variant", "timeout"):
                 if k in d:
                     c[k] = d[k]
+            c.setdefault("pregen", {}).update(d.get("pregen", {}))
     for pid, c in props.items():
         c["rule"] = " || ".join(c["rules"])
         c["text"] = " || ".join(c.get("texts", []))
